@@ -158,8 +158,10 @@ func (e *kvElection) handleWatchEvent(entry Entry) {
 	// If we're the leader, check if we're still the leader
 	e.verifYield("watch.event")
 	if e.IsLeader() {
-		// If the new leader ID is different, we've been taken over
-		if newLeaderID != e.cfg.InstanceID {
+		// If the new leader ID is different, we've been taken over - unless
+		// the event is older than our own record (a delayed notification of a
+		// previous leader's write), which says nothing about the present.
+		if newLeaderID != e.cfg.InstanceID && entry.Revision() > e.revision.Load() {
 			log := e.getLogger()
 			log.Warn("leadership_lost_via_watcher",
 				append(e.logWithContext(e.ctx),
